@@ -71,7 +71,9 @@ def proj_comp(lw):
     Returns (comp, supported): supported is False when the denominators of a well get too large
     for TLC's 32 bit arithmetic."""
     comp = lw.composition
-    names = sorted(comp.keys())
+    # total on garbage: a component "name" that is not a string (None, a number) is logged as its repr in angle brackets
+    label = {nm: (nm if isinstance(nm, str) else f"<{type(nm).__name__} {nm!r}>") for nm in comp.keys()}
+    names = sorted(comp.keys(), key=lambda nm: label[nm])
     shape = lw.volumes.shape
     out, supported = [], True
     for c in range(shape[1]):
@@ -81,7 +83,7 @@ def proj_comp(lw):
                 try:
                     f = comp[nm][r, c]
                 except Exception:
-                    entries.append([str(nm), -3, 1])
+                    entries.append([label[nm], -3, 1])
                     continue
                 if f == 0:
                     continue
@@ -96,7 +98,7 @@ def proj_comp(lw):
                     fr = Fraction(float(f)).limit_denominator(200000)
                     if abs(float(fr) - float(f)) <= 1e-13:
                         supported = False
-                entries.append([str(nm), n, d])
+                entries.append([label[nm], n, d])
             if l > LCM_LIMIT:
                 supported = False
             out.append(entries)
